@@ -128,8 +128,13 @@ def _i(x):
 CATALOGUE: Dict[str, Tuple[str, Callable[[Ctx], Tuple[tuple, dict]], Tuple[str, ...]]] = {}
 
 
-def _reg(name, kind, builder, *flags):
+REAL_NAME: Dict[str, str] = {}
+
+
+def _reg(name, kind, builder, *flags, real: Optional[str] = None):
     CATALOGUE[name] = (kind, builder, tuple(flags))
+    if real:
+        REAL_NAME[name] = real
 
 
 def _install():
@@ -256,6 +261,11 @@ def _install():
     _reg("buffer_toggle", "any", lambda c: A(c.trigger(), c.cb(c.memo(lambda v: c.trigger()))))
     _reg("group_by", "any", lambda c: A(c.cb(lambda v: _i(v)), c.cb(lambda v: (v,)) if c.coin() else None), "obs_out")
     _reg("group_by_until", "any", lambda c: A(c.cb(lambda v: _i(v)), None, c.cb(c.memo(lambda g: c.trigger()))), "obs_out")
+    # the duration of a group derived from the group itself - what the duration_mapper(group) signature exists for
+    def _gbu_self(c):
+        n = c.rnd.randint(0, 2)      # chosen once per pipeline: the duration selector itself is deterministic
+        return A(c.cb(lambda v: _i(v)), None, c.cb(lambda g: g.pipe(__import__("reactivex").operators.skip(n))))
+    _reg("group_by_until_self", "any", _gbu_self, "obs_out", real="group_by_until")
     _reg("partition", "any", lambda c: A(pred(c)), "multi")
     _reg("partition_indexed", "any", lambda c: A(predi(c)), "multi")
     _reg("join", "any", lambda c: A(c.source("num", "other"), c.cb(c.memo(lambda v: c.trigger())), c.cb(c.memo(lambda v: c.trigger()))))
@@ -291,10 +301,11 @@ def build_pipeline(ctx: Ctx, names: List[str], form: str = "pipe"):
         kind, b, f = CATALOGUE[n]
         args, kwargs = b(ctx)
         flags |= set(f)
+        rn = REAL_NAME.get(n, n)
         if form == "fluent":
-            ys = getattr(ys, n)(*args, **kwargs)
+            ys = getattr(ys, rn)(*args, **kwargs)
         else:
-            ys = ys.pipe(getattr(ops, n)(*args, **kwargs))
+            ys = ys.pipe(getattr(ops, rn)(*args, **kwargs))
         if "multi" in f:
             import reactivex
             ys = reactivex.merge(*ys)
